@@ -12,7 +12,8 @@
 //!                         afterwards: imports are only handled once the replay finished);
 //!     4. the parent reads the cursor again.
 //!
-//! Request line: `<A|E> <row>* | <cur>*`, row = `<author>.<seq>.<b|n>.<id>`, cur = `<author>:<seq>`
+//! Request line: `<A|E> <row>* | <cur>* | <assoc>*`, row = `<author>.<seq>.<b|n>.<id>`, cur = `<author>:<seq>`, assoc = author
+//!               whose log is associated with the topic
 //! Answer:       `<delivered ids in order> | <cursor after the replay>`
 use hc::{Args, Out, Rng, Tier};
 use futures::StreamExt;
@@ -108,7 +109,16 @@ fn foreign_operation(key: &SigningKey, topic: Topic, seq: u64, backlink: Option<
 // child: run the scenario, then abort
 // ------------------------------------------------------------------------------------------------
 
-async fn child_run(file: PathBuf, policy: AckPolicy, steps: Vec<Step>, crash_after: usize, graceful: bool, ntopics: usize) {
+async fn child_run(file: PathBuf, policy: AckPolicy, steps: Vec<Step>, crash_after: usize, graceful: bool, ntopics: usize, crash_commit: u64, count_file: Option<PathBuf>) {
+    use p2panda_store::sqlite::verif_hooks;
+    if crash_commit > 0 {
+        // crash injection inside the steps: abort right after the k-th successfully committed store transaction
+        verif_hooks::set_commit_hook(Some(std::sync::Arc::new(move |n: u64| {
+            if n == crash_commit {
+                std::process::abort();
+            }
+        })));
+    }
     let node = spawn_node(&file, policy).await;
     let mut txs = vec![];
     let mut rxs = vec![];
@@ -168,6 +178,11 @@ async fn child_run(file: PathBuf, policy: AckPolicy, steps: Vec<Step>, crash_aft
             }
             Step::Sleep => tokio::time::sleep(Duration::from_millis(15)).await,
         }
+    }
+    if let Some(f) = &count_file {
+        // dry run: let the background work of the last steps settle, then report how many commits the scenario makes
+        tokio::time::sleep(Duration::from_millis(400)).await;
+        let _ = std::fs::write(f, verif_hooks::commit_count().to_string());
     }
     if graceful {
         drop(txs);
@@ -249,8 +264,9 @@ struct Row {
 }
 
 /// The topic's rows of `operations_v1` and its cursor row of `cursors_v1`, read directly from the file.
-async fn read_persisted(file: &Path, t: usize) -> (Vec<Row>, BTreeMap<Vec<u8>, u64>) {
+async fn read_persisted(file: &Path, t: usize) -> (Vec<Row>, BTreeMap<Vec<u8>, u64>, Vec<Vec<u8>>) {
     use p2panda_store::cursors::CursorStore;
+    use p2panda_store::topics::TopicStore;
     let store = p2panda_store::SqliteStoreBuilder::new()
         .database_url(&db_url(file))
         .create_database(false)
@@ -287,8 +303,11 @@ async fn read_persisted(file: &Path, t: usize) -> (Vec<Row>, BTreeMap<Vec<u8>, u
             }
         }
     }
+    // authors whose log is associated with the topic (`topics_v1`): the only logs a replay looks at
+    let logs: BTreeMap<VerifyingKey, Vec<LogId>> = <p2panda_store::SqliteStore as TopicStore<Topic, VerifyingKey, LogId>>::resolve(&store, &topic(t)).await.expect("resolve");
+    let assoc: Vec<Vec<u8>> = logs.iter().filter(|(a, l)| **a != sentinel && l.contains(&log_id)).map(|(a, _)| a.as_bytes().to_vec()).collect();
     store.pool().close().await;
-    (rows, cur)
+    (rows, cur, assoc)
 }
 
 fn run_child(args: &[String]) -> std::process::ExitStatus {
@@ -309,7 +328,7 @@ struct CaseResult {
     lines: Vec<(String, String, bool, Vec<(String, String)>)>,
 }
 
-fn one_case(rt: &tokio::runtime::Runtime, dir: &Path, policy: AckPolicy, steps: &[Step], crash_after: usize, graceful: bool, ntopics: usize) -> CaseResult {
+fn one_case(rt: &tokio::runtime::Runtime, dir: &Path, policy: AckPolicy, steps: &[Step], crash_after: usize, graceful: bool, ntopics: usize, crash_commit: u64) -> CaseResult {
     let _ = std::fs::remove_dir_all(dir);
     std::fs::create_dir_all(dir).unwrap();
     let file = dir.join("node.sqlite");
@@ -322,7 +341,13 @@ fn one_case(rt: &tokio::runtime::Runtime, dir: &Path, policy: AckPolicy, steps: 
         if graceful { "graceful".into() } else { "abort".into() },
         ntopics.to_string(),
         steps_text.join(","),
+        crash_commit.to_string(),
     ]);
+    let crash_label = if crash_commit > 0 {
+        format!("crash right after committed store transaction #{crash_commit} of scenario [{}] (policy {})", steps_text.join(" "), policy_word(policy))
+    } else {
+        format!("{} after step {crash_after} of scenario [{}] (policy {})", if graceful { "node dropped" } else { "abort" }, steps_text.join(" "), policy_word(policy))
+    };
     // persisted state after the crash
     let mut before = vec![];
     for t in 0..ntopics {
@@ -333,10 +358,10 @@ fn one_case(rt: &tokio::runtime::Runtime, dir: &Path, policy: AckPolicy, steps: 
     let text = std::fs::read_to_string(&report).unwrap_or_default();
     let mut lines = vec![];
     for t in 0..ntopics {
-        let (rows, cur) = &before[t];
-        let (rows_after, cur_after) = rt.block_on(read_persisted(&file, t));
+        let (rows, cur, assoc) = &before[t];
+        let (rows_after, cur_after, _) = rt.block_on(read_persisted(&file, t));
         // small ids: authors by key bytes (the order `BTreeMap<VerifyingKey, _>` iterates in), rows by (author, seq)
-        let mut authors: Vec<Vec<u8>> = rows.iter().map(|r| r.author.clone()).chain(cur.keys().cloned()).collect();
+        let mut authors: Vec<Vec<u8>> = rows.iter().map(|r| r.author.clone()).chain(cur.keys().cloned()).chain(assoc.iter().cloned()).collect();
         authors.sort();
         authors.dedup();
         let aid = |a: &Vec<u8>| authors.iter().position(|x| x == a).unwrap();
@@ -349,6 +374,9 @@ fn one_case(rt: &tokio::runtime::Runtime, dir: &Path, policy: AckPolicy, steps: 
             sorted.iter().map(|r| format!("{}.{}.{}.{}", aid(&r.author), r.seq, if r.body { 'b' } else { 'n' }, rid[&r.hash])).collect::<Vec<_>>().join(" "),
             cur.iter().map(|(a, h)| format!("{}:{}", aid(a), h)).collect::<Vec<_>>().join(" ")
         );
+        let mut assoc_ids: Vec<usize> = assoc.iter().map(|a| aid(a)).collect();
+        assoc_ids.sort();
+        let req = format!("{req} | {}", assoc_ids.iter().map(|a| a.to_string()).collect::<Vec<_>>().join(" "));
         // the reopen child's report for this topic
         let line = text.lines().find(|l| l.starts_with(&format!("{t} "))).unwrap_or("");
         let toks: Vec<&str> = line.split(' ').collect();
@@ -373,7 +401,7 @@ fn one_case(rt: &tokio::runtime::Runtime, dir: &Path, policy: AckPolicy, steps: 
             let above = cur.get(&r.author).map(|h| r.seq > *h).unwrap_or(true);
             let was = delivered_hashes.contains(&r.hash);
             if r.body && above && !was {
-                fails.push(("unacked-not-replayed".to_string(), format!("stored operation seq {} of author {} (body, cursor {:?}) was not delivered after the restart", r.seq, aid(&r.author), cur.get(&r.author))));
+                fails.push(("unacked-not-replayed".to_string(), format!("{crash_label}: stored operation seq {} of author {} (body, cursor {:?}, log associated with the topic: {}) was not delivered after the restart", r.seq, aid(&r.author), cur.get(&r.author), assoc.contains(&r.author))));
             }
             if was && !above {
                 fails.push(("acked-redelivered".to_string(), format!("operation seq {} of author {} at or below the cursor {:?} was delivered again", r.seq, aid(&r.author), cur.get(&r.author))));
@@ -485,8 +513,10 @@ fn main() {
         let graceful = v[5] == "graceful";
         let ntopics: usize = v[6].parse().unwrap();
         let steps: Vec<Step> = v[7].split(',').filter(|s| !s.is_empty()).filter_map(Step::parse).collect();
+        let crash_commit: u64 = v.get(8).and_then(|s| s.parse().ok()).unwrap_or(0);
+        let count_file = v.get(9).map(PathBuf::from);
         let rt = tokio::runtime::Builder::new_multi_thread().worker_threads(2).enable_all().build().unwrap();
-        rt.block_on(child_run(file, policy, steps, crash_after, graceful, ntopics));
+        rt.block_on(child_run(file, policy, steps, crash_after, graceful, ntopics, crash_commit, count_file));
         return;
     }
     if v.get(1).map(|s| s == "child-reopen").unwrap_or(false) {
@@ -506,7 +536,7 @@ fn main() {
         // a replay file carries the scenario in `what`-independent form: re-run the fixed witness scenarios
         let steps = vec![Step::Publish { t: 0, wait: true }, Step::Drain { t: 0 }, Step::Publish { t: 0, wait: false }];
         for k in 0..=steps.len() {
-            let res = one_case(&rt, &scratch, AckPolicy::Automatic, &steps, k, false, ntopics);
+            let res = one_case(&rt, &scratch, AckPolicy::Automatic, &steps, k, false, ntopics, 0);
             emit(&mut out, res, "replay");
         }
         let _ = std::fs::remove_dir_all(&scratch);
@@ -515,7 +545,7 @@ fn main() {
     }
     let mut rng = Rng::new(args.seed);
     let nscen = match args.tier {
-        Tier::Quick => 5,
+        Tier::Quick => 3,
         Tier::Thorough => 60,
         Tier::Search => 40,
     };
@@ -524,6 +554,50 @@ fn main() {
         (AckPolicy::Automatic, vec![Step::Publish { t: 0, wait: true }, Step::Publish { t: 0, wait: true }, Step::Drain { t: 0 }, Step::Publish { t: 0, wait: false }, Step::Import { t: 0, a: 0, n: 2, bodyless_mask: 2, wait: false }]),
         (AckPolicy::Explicit, vec![Step::Publish { t: 1, wait: true }, Step::Publish { t: 1, wait: true }, Step::Publish { t: 1, wait: true }, Step::Drain { t: 1 }, Step::Ack { t: 1 }, Step::Import { t: 1, a: 1, n: 3, bodyless_mask: 4, wait: true }, Step::Drain { t: 1 }, Step::Ack { t: 1 }]),
     ];
+    // crash after EVERY committed store transaction of a few small scenarios (first publish in a topic, publish + ack,
+    // import): a dry run counts the commits, then one child per commit index aborts inside the commit hook
+    let commit_scenarios: Vec<(AckPolicy, Vec<Step>)> = {
+        let mut v = vec![
+            (AckPolicy::Automatic, vec![Step::Publish { t: 0, wait: true }, Step::Publish { t: 0, wait: true }]),
+            (AckPolicy::Explicit, vec![Step::Publish { t: 1, wait: true }, Step::Drain { t: 1 }, Step::Ack { t: 1 }, Step::Publish { t: 1, wait: true }]),
+            (AckPolicy::Automatic, vec![Step::Import { t: 0, a: 0, n: 2, bodyless_mask: 2, wait: true }, Step::Publish { t: 0, wait: true }]),
+        ];
+        if args.tier != Tier::Quick {
+            v.push((AckPolicy::Automatic, vec![Step::Publish { t: 0, wait: false }, Step::Publish { t: 1, wait: false }, Step::Import { t: 1, a: 1, n: 3, bodyless_mask: 1, wait: true }, Step::Publish { t: 0, wait: true }]));
+            v.push((AckPolicy::Explicit, vec![Step::Import { t: 0, a: 0, n: 1, bodyless_mask: 0, wait: true }, Step::Publish { t: 0, wait: true }, Step::Drain { t: 0 }, Step::Ack { t: 0 }, Step::Ack { t: 0 }, Step::Publish { t: 0, wait: true }]));
+            for _ in 0..6 {
+                let policy = if rng.chance(1, 2) { AckPolicy::Automatic } else { AckPolicy::Explicit };
+                v.push((policy, random_scenario(&mut rng, ntopics)));
+            }
+        }
+        v
+    };
+    for (policy, steps) in &commit_scenarios {
+        let _ = std::fs::remove_dir_all(&scratch);
+        std::fs::create_dir_all(&scratch).unwrap();
+        let count_file = scratch.join("commits.txt");
+        let steps_text: Vec<String> = steps.iter().map(|s| s.text()).collect();
+        run_child(&[
+            "child-run".into(),
+            scratch.join("dry.sqlite").display().to_string(),
+            policy_word(*policy).into(),
+            steps.len().to_string(),
+            "graceful".into(),
+            ntopics.to_string(),
+            steps_text.join(","),
+            "0".into(),
+            count_file.display().to_string(),
+        ]);
+        let ncommits: u64 = std::fs::read_to_string(&count_file).ok().and_then(|s| s.trim().parse().ok()).unwrap_or(0);
+        out.count_n("commit-crash:commits-in-dry-runs", ncommits);
+        if ncommits == 0 {
+            out.oracle_fail(0, "dry-run-no-commits", "the dry run reported no committed transaction (commit hook missing?)", &steps_text.join(" "), "");
+        }
+        for k in 1..=ncommits {
+            let res = one_case(&rt, &scratch, *policy, steps, steps.len(), false, ntopics, k);
+            emit(&mut out, res, &format!("commit-crash:{}", policy_word(*policy)));
+        }
+    }
     let mut scenarios = fixed;
     for _ in 0..nscen {
         let policy = if rng.chance(1, 2) { AckPolicy::Automatic } else { AckPolicy::Explicit };
@@ -531,19 +605,19 @@ fn main() {
     }
     for (si, (policy, steps)) in scenarios.iter().enumerate() {
         for k in 0..=steps.len() {
-            let res = one_case(&rt, &scratch, *policy, steps, k, false, ntopics);
+            let res = one_case(&rt, &scratch, *policy, steps, k, false, ntopics, 0);
             emit(&mut out, res, &format!("abort:{}", policy_word(*policy)));
         }
         // second mode: the node is dropped without aborting, once per scenario at a random point
         let k = rng.range(1, steps.len() as u64) as usize;
-        let res = one_case(&rt, &scratch, *policy, steps, k, true, ntopics);
+        let res = one_case(&rt, &scratch, *policy, steps, k, true, ntopics, 0);
         emit(&mut out, res, &format!("drop:{}", policy_word(*policy)));
         out.count_n("scenario-steps", steps.len() as u64);
         let _ = si;
     }
     let _ = std::fs::remove_dir_all(&scratch);
     out.finish(
-        "scenarios of publish (awaiting processing or not) / import of foreign operations (some body-less) / drain / explicit ack / sleep over 2 topics and up to 3 authors, automatic and explicit ack policy; a child process runs the first k steps on a file-backed SQLite database and abort()s, for EVERY k (plus one graceful drop per scenario); a fresh node re-opens the file and replays from the frontier. one case = one topic of one (scenario, k). non-trivial = the persisted state holds an operation with a body above an existing cursor entry of its log (crash between store commit and ack, after an earlier ack in the same log)",
+        "scenarios of publish (awaiting processing or not) / import of foreign operations (some body-less) / drain / explicit ack / sleep over 2 topics and up to 3 authors, automatic and explicit ack policy; a child process runs the first k steps on a file-backed SQLite database and abort()s, for EVERY k (plus one graceful drop per scenario); in addition, for small scenarios (first publish in a topic, publish + explicit ack, import) a dry run counts the committed store transactions and one child per commit index aborts INSIDE the commit hook right after that commit (every durable state of the scenario); a fresh node re-opens the file and replays from the frontier. one case = one topic of one (scenario, k). non-trivial = the persisted state holds an operation with a body above an existing cursor entry of its log (crash between store commit and ack, after an earlier ack in the same log)",
         false,
     );
 }
